@@ -21,6 +21,7 @@
 #include <fcntl.h>
 #include <time.h>
 #include <sys/wait.h>
+#include <pthread.h>
 
 #if defined(__SANITIZE_ADDRESS__)
 #define VERIF_ASAN 1
@@ -321,6 +322,22 @@ int in_child(F &&f) {
 	if(waitpid(pid, &st, 0) < 0) return 255;
 	if(WIFEXITED(st)) return WEXITSTATUS(st);
 	return 128 + (WIFSIGNALED(st) ? WTERMSIG(st) : 0);
+}
+
+// Free-running multi-threaded drivers: a wall-clock watchdog whose firing is *inconclusive*, never a violation (logical
+// deadlock/livelock verdicts come from the controlled scheduler). It only keeps a hung run from occupying the runner.
+inline void start_inconclusive_watchdog(unsigned seconds) {
+	static pthread_t th;
+	static unsigned secs; secs = seconds;
+	pthread_create(&th, nullptr, [](void *) -> void * {
+		sleep(secs);
+		rec.counters["inconclusive_wallclock_watchdog_fired"] = 1;
+		fprintf(stderr, "[verif] wall-clock watchdog fired in mode=%s case=%lld: run is inconclusive\n", rec.cur_mode, (long long)rec.cur_case);
+		write_result(false, "");
+		_exit(rec.violations.empty() ? 0 : 1);
+		return nullptr;
+	}, nullptr);
+	pthread_detach(th);
 }
 
 // Scaled count: quick/thorough base numbers times --scale
